@@ -16,6 +16,7 @@
 import MocVerif.Lemmas.Codec
 import MocVerif.Lemmas.Cells
 import MocVerif.Lemmas.CodecMoc
+import MocVerif.Lemmas.Text
 import MocVerif.Props.C05
 
 namespace Moc.Codec.C07
@@ -173,6 +174,157 @@ theorem json_roundtrip_moc (q : Qty) (hq : q.dim = 1 ∨ q.dim = 2) (w d : Nat)
     rw [List.map_map]; rfl
   rw [this]
   exact Moc.C05.cells_cover q hq w d hd l hv x
+
+/-! ### Character level: the text the writer emits, read by the lexer -/
+
+theorem mem_encodeFrom (items : List Item) (dmax : Nat) (t : Tok) : ∀ (n d : Nat),
+    t ∈ encodeFrom items dmax d n → (∃ d', t = .depth d' ∧ d' < d + n) ∨ ∃ it ∈ items, t = itemTok it := by
+  intro n
+  induction n with
+  | zero => intro d h; simp [encodeFrom] at h
+  | succ n ih =>
+    intro d h
+    simp only [encodeFrom, List.mem_append] at h
+    cases h with
+    | inl h =>
+      by_cases hb : ((bucket items d).isEmpty && d != dmax) = true
+      · simp [hb] at h
+      · simp only [hb, Bool.false_eq_true, ↓reduceIte, List.mem_cons] at h
+        cases h with
+        | inl h => exact .inl ⟨d, h, by omega⟩
+        | inr h =>
+          obtain ⟨it, hit, rfl⟩ := List.mem_map.1 h
+          exact .inr ⟨it, (mem_bucket.1 hit).1, rfl⟩
+    | inr h =>
+      cases ih (d + 1) h with
+      | inl h => obtain ⟨d', e, hd⟩ := h; exact .inl ⟨d', e, by omega⟩
+      | inr h => exact .inr h
+
+/-- Every token the writer emits can be printed and read back on `w` bits. -/
+theorem encodeToks_tokOk (w dmax : Nat) (items : List Item) (hd : dmax < 2 ^ w)
+    (hit : ∀ it ∈ items, it.s < it.e ∧ it.e < 2 ^ w) : ∀ t ∈ encodeToks dmax items, TokOk w t := by
+  intro t ht
+  cases mem_encodeFrom items dmax t (dmax + 1) 0 ht with
+  | inl h => obtain ⟨d', rfl, hd'⟩ := h; simp only [TokOk]; omega
+  | inr h =>
+    obtain ⟨it, hm, rfl⟩ := h
+    have := hit it hm
+    unfold itemTok
+    split
+    · simp only [TokOk]; omega
+    · exact this
+
+theorem depth_mem_encodeFrom (items : List Item) (dmax : Nat) : ∀ (n d : Nat), d ≤ dmax → dmax < d + n →
+    Tok.depth dmax ∈ encodeFrom items dmax d n := by
+  intro n
+  induction n with
+  | zero => intro d h1 h2; omega
+  | succ n ih =>
+    intro d h1 h2
+    simp only [encodeFrom, List.mem_append]
+    by_cases hd : d = dmax
+    · subst hd
+      left
+      simp
+    · right
+      exact ih (d + 1) (by omega) (by omega)
+
+theorem encodeToks_ne_nil (dmax : Nat) (items : List Item) : encodeToks dmax items ≠ [] := by
+  intro h
+  have := depth_mem_encodeFrom items dmax (dmax + 1) 0 (Nat.zero_le _) (by omega)
+  unfold encodeToks at h
+  rw [h] at this
+  cases this
+
+/-- **The lexer inverts the writer, character by character**: on the characters written for any list
+    of non-empty cell ranges whose numbers fit the index type, the reader's lexer returns exactly the
+    writer's token stream (decimal printing / parsing, separators, the trailing blank after a bare
+    `dmax/`), so the text-level reader equals the token-level reader composed with the writer. -/
+theorem ascii_text_lex (q : Qty) (w dmax : Nat) (items : List Item) (hd : dmax < 2 ^ w)
+    (hit : ∀ it ∈ items, it.s < it.e ∧ it.e < 2 ^ w) :
+    decodeAscii q w (encodeChars dmax items) = decodeToks q w (encodeToks dmax items) := by
+  have hlex : ∀ tail : List Char, AllSpace tail →
+      lexAll w ((showToks (encodeToks dmax items) ++ tail).length + 1)
+        (showToks (encodeToks dmax items) ++ tail) = some (encodeToks dmax items) := by
+    intro tail htail
+    have := lexAll_showToks w (encodeToks dmax items) (encodeToks_ne_nil dmax items)
+      (encodeToks_tokOk w dmax items hd hit) ((showToks (encodeToks dmax items) ++ tail).length + 1)
+      (by have := showToks_length (encodeToks dmax items); simp only [List.length_append]; omega)
+      [] tail (fun _ h => by cases h) htail
+    simpa using this
+  have hsplit : ∃ tail, AllSpace tail ∧
+      encodeChars dmax items = showToks (encodeToks dmax items) ++ tail := by
+    unfold encodeChars showToks
+    simp only []
+    split
+    · exact ⟨[' '], fun c h => by simp only [List.mem_singleton] at h; subst h; decide, rfl⟩
+    · exact ⟨[], (fun _ h => by cases h), (List.append_nil _).symm⟩
+  obtain ⟨tail, ht, e⟩ := hsplit
+  unfold decodeAscii
+  rw [e, hlex tail ht]
+
+/-- **ASCII round trip at the character level** (composition of `ascii_text_lex` with the token-level
+    theorem): for every list of in-domain, pairwise non-overlapping cell ranges, every order and `dmax`. -/
+theorem ascii_text_roundtrip (q : Qty) (w dmax : Nat) (items : List Item)
+    (hmax : dmax ≤ q.maxDepth w ∧ dmax ≤ 255) (hok : ∀ it ∈ items, ItemOk q w it ∧ it.d ≤ dmax)
+    (hdis : (items.map (rangeOfItem q w)).Pairwise Disjoint)
+    (hw : dmax < 2 ^ w) (hfit : ∀ it ∈ items, it.e < 2 ^ w) :
+    decodeAscii q w (encodeChars dmax items) = .ok (dmax, normalize (items.map (rangeOfItem q w))) := by
+  rw [ascii_text_lex q w dmax items hw (fun it h => ⟨(hok it h).1.2.2.1, hfit it h⟩)]
+  exact ascii_roundtrip q w dmax items hmax hok hdis
+
+/-- What the writer is fed with for a valid MOC: in-domain cell ranges of depth at most `d`. -/
+theorem itemsOf_ok (q : Qty) (hq : q.dim = 1 ∨ q.dim = 2) (w d : Nat)
+    (hd : d ≤ q.maxDepth w) (hd255 : d ≤ 255) (l : List Rng) (hv : Valid q w d l) :
+    ∀ it ∈ itemsOf q w d l, ItemOk q w it ∧ it.d ≤ d := by
+  have hal := Moc.C05.aligned_of_valid q w d l hv
+  have oc := ordCells_cellsOf q hq w d hd (q.nCellsMax w) l 0 hv.1 hal hv.2.1 (Nat.zero_le _)
+  have ocr := ordCR_cellRangesOf q w d _ 0 _ oc
+  intro it hit
+  unfold itemsOf at hit
+  obtain ⟨c, hc, rfl⟩ := List.mem_map.1 hit
+  obtain ⟨m1, m2, m3⟩ := ordCR_mem q w d _ 0 _ ocr c hc
+  refine ⟨⟨by simp only []; omega, by simp only []; omega, m2, ?_⟩, m1⟩
+  exact le_nCells_of_shl_le q w c.1 c.2.2 (by omega) (by simpa [rangeOfCellRange] using m3)
+
+theorem nCells_mono (q : Qty) {a b : Nat} (h : a ≤ b) : q.nCells a ≤ q.nCells b := by
+  unfold Qty.nCells
+  rw [Nat.shiftLeft_eq, Nat.shiftLeft_eq]
+  exact Nat.mul_le_mul_left _ (Nat.pow_le_pow_right (by decide) (Nat.mul_le_mul_left _ h))
+
+/-- **ASCII round trip, end to end, at the character level**: for EVERY valid MOC `M` of depth `d`
+    whose cell numbers fit the index type (`n_cells(d) < 2^w`: true of the three quantities on
+    u16 / u32 / u64, see the instances below), reading the characters the writer emits for `M`
+    returns exactly `(d, M)`. -/
+theorem ascii_text_roundtrip_moc (q : Qty) (hq : q.dim = 1 ∨ q.dim = 2) (w d : Nat)
+    (hd : d ≤ q.maxDepth w) (hd255 : d ≤ 255) (hfit : q.nCells d < 2 ^ w) (hw : d < 2 ^ w)
+    (l : List Rng) (hv : Valid q w d l) :
+    decodeAscii q w (encodeChars d (itemsOf q w d l)) = .ok (d, l) := by
+  have hok := itemsOf_ok q hq w d hd hd255 l hv
+  rw [ascii_text_lex q w d _ hw (fun it h => by
+    have := hok it h
+    have hm := nCells_mono q this.2
+    exact ⟨this.1.2.2.1, by have := this.1.2.2.2; omega⟩)]
+  exact ascii_roundtrip_moc q hq w d hd hd255 l hv
+
+theorem fit_of_max (q : Qty) (w : Nat) (h : q.nCells (q.maxDepth w) < 2 ^ w) :
+    ∀ d ≤ q.maxDepth w, q.nCells d < 2 ^ w :=
+  fun _ hd => Nat.lt_of_le_of_lt (nCells_mono q hd) h
+
+/-- The index types of the library satisfy the fit hypothesis at every depth they support. -/
+theorem fit_instances :
+    (∀ d ≤ Params.hpx.maxDepth 16, Params.hpx.nCells d < 2 ^ 16) ∧
+    (∀ d ≤ Params.hpx.maxDepth 32, Params.hpx.nCells d < 2 ^ 32) ∧
+    (∀ d ≤ Params.hpx.maxDepth 64, Params.hpx.nCells d < 2 ^ 64) ∧
+    (∀ d ≤ Params.time.maxDepth 16, Params.time.nCells d < 2 ^ 16) ∧
+    (∀ d ≤ Params.time.maxDepth 32, Params.time.nCells d < 2 ^ 32) ∧
+    (∀ d ≤ Params.time.maxDepth 64, Params.time.nCells d < 2 ^ 64) ∧
+    (∀ d ≤ Params.freq.maxDepth 16, Params.freq.nCells d < 2 ^ 16) ∧
+    (∀ d ≤ Params.freq.maxDepth 32, Params.freq.nCells d < 2 ^ 32) ∧
+    (∀ d ≤ Params.freq.maxDepth 64, Params.freq.nCells d < 2 ^ 64) :=
+  ⟨fit_of_max _ _ (by decide), fit_of_max _ _ (by decide), fit_of_max _ _ (by decide),
+   fit_of_max _ _ (by decide), fit_of_max _ _ (by decide), fit_of_max _ _ (by decide),
+   fit_of_max _ _ (by decide), fit_of_max _ _ (by decide), fit_of_max _ _ (by decide)⟩
 
 /-- The empty MOC keeps its depth: the writer emits the bare `dmax/` token. -/
 theorem ascii_roundtrip_empty (q : Qty) (w dmax : Nat) (hmax : dmax ≤ q.maxDepth w ∧ dmax ≤ 255) :
